@@ -47,11 +47,11 @@ type History struct {
 // HStats is what a run reports for labels / non-triviality.
 type HStats struct {
 	Rescales, NonIdentityPerm, ScaleChange, Restores int
-	FlushSwaps, CompactSwaps                        int
-	Fired, MaxPending, Reregistered                 int
-	FiredAfterRestore, PendingAtRestore             int
-	WMBatches, MinChanges                           int
-	Checkpoints                                     int
+	FlushSwaps, CompactSwaps                         int
+	Fired, MaxPending, Reregistered                  int
+	FiredAfterRestore, PendingAtRestore              int
+	WMBatches, MinChanges                            int
+	Checkpoints                                      int
 }
 
 type hrun struct {
@@ -78,8 +78,8 @@ type fakeSR struct {
 	id string
 }
 
-func (f fakeSR) ID() string   { return f.id }
-func (f fakeSR) Host() string { return f.id }
+func (f fakeSR) ID() string                                                        { return f.id }
+func (f fakeSR) Host() string                                                      { return f.id }
 func (f fakeSR) Deploy(context.Context, *workerpb.DeploySourceRunnerRequest) error { return nil }
 
 const noWM = int64(-1) << 62
@@ -400,9 +400,22 @@ func GenHistory(rt *rapid.T, kinds []string, maxOps0, maxSenders int, timers boo
 	}
 	n := rapid.IntRange(3, 60).Draw(rt, "n")
 	tsGen := rapid.OneOf(rapid.Int64Range(1, 12), rapid.Int64Range(1, 60))
+	// the entries written most recently (subject key + mutation): right after a
+	// restore the history comes back to them ("later updates to restored keys
+	// take effect"), because that is where a restored database that resumes its
+	// sequence numbers too low, or reads a stale table first, shows
+	type touched struct {
+		Key int
+		M   Mut
+	}
+	var recent []touched
 	for i := 0; i < n; i++ {
 		k := rapid.SampledFrom(kinds).Draw(rt, "kind")
 		o := HOp{Kind: k, Sender: rapid.IntRange(0, 3).Draw(rt, "sender"), Key: rapid.IntRange(0, 13).Draw(rt, "key")}
+		if k == "event" && len(recent) > 0 && rapid.IntRange(0, 3).Draw(rt, "hot") == 0 {
+			// a hot key: operators are not equally busy
+			o.Key = recent[len(recent)-1].Key
+		}
 		switch k {
 		case "event":
 			nm := rapid.IntRange(0, 2).Draw(rt, "nmuts")
@@ -423,6 +436,23 @@ func GenHistory(rt *rapid.T, kinds []string, maxOps0, maxSenders int, timers boo
 			o.Perm = rapid.SliceOfN(rapid.IntRange(0, 9), 0, 4).Draw(rt, "perm")
 		}
 		p.Ops = append(p.Ops, o)
+		for _, m := range o.Muts {
+			recent = append(recent, touched{o.Key, m})
+		}
+		if len(recent) > 8 {
+			recent = recent[len(recent)-8:]
+		}
+		if k == "rescale" && len(recent) > 0 {
+			nt := rapid.IntRange(0, 5).Draw(rt, "retouch")
+			for j := 0; j < nt; j++ {
+				t := rapid.SampledFrom(recent).Draw(rt, "touched")
+				m := Mut{NS: t.M.NS, Key: t.M.Key, Del: rapid.IntRange(0, 2).Draw(rt, "del") == 0}
+				if !m.Del {
+					m.Val = rapid.SliceOfN(rapid.Byte(), 0, 6).Draw(rt, "val")
+				}
+				p.Ops = append(p.Ops, HOp{Kind: "event", Sender: rapid.IntRange(0, 3).Draw(rt, "sender"), Key: t.Key, Muts: []Mut{m}})
+			}
+		}
 	}
 	return p
 }
